@@ -165,3 +165,173 @@ ERRNOS = {
     "EFBIG": _errno.EFBIG,
     "EDQUOT": _errno.EDQUOT,
 }
+
+
+# ---------------------------------------------------------------------------
+# Storage: in-memory sinks that record every operation and can fail on schedule
+
+
+class _SinkMixin:
+    def _sim_init(self, ctx=None, fail_at: int | None = None, partial: float = 0.0,
+                  err: str = "ENOSPC", label: str = "sink"):
+        self.sim_ctx = ctx
+        self.sim_trace: list[tuple[int, int]] = []  # (position, nbytes) of each good write
+        self.sim_writes = 0
+        self.sim_fail_at = fail_at
+        self.sim_partial = partial
+        self.sim_err = ERRNOS[err]
+        self.sim_fired = 0
+        self.sim_label = label
+        self.sim_seeks = 0
+
+    def _sim_write(self, data, length: int, do_write, do_prefix):
+        k = self.sim_writes
+        self.sim_writes = k + 1
+        if self.sim_fail_at is not None and k >= self.sim_fail_at:
+            # the medium stays full: this and every later write fails
+            if k == self.sim_fail_at and self.sim_partial > 0 and length > 1:
+                n = max(1, min(length - 1, int(length * self.sim_partial)))
+                pos = self.tell()
+                do_prefix(n)
+                self.sim_trace.append((pos, n))
+            self.sim_fired += 1
+            if self.sim_ctx is not None and self.sim_fired == 1:
+                self.sim_ctx.log("fault", self.sim_label, "write", k)
+            raise InjectedOSError(self.sim_err, os.strerror(self.sim_err))
+        pos = self.tell()
+        n = do_write()
+        self.sim_trace.append((pos, length))
+        return n
+
+
+class SimBytesIO(io.BytesIO, _SinkMixin):
+    """A BytesIO (so the library accepts it as an in-memory file) that records the
+    write trace and fails at a scheduled write ordinal."""
+
+    def __init__(self, initial: bytes = b"", **kw):
+        io.BytesIO.__init__(self, initial)
+        self._sim_init(**kw)
+
+    def write(self, b):
+        mv = memoryview(b)
+        length = mv.nbytes
+        return self._sim_write(
+            b, length,
+            lambda: io.BytesIO.write(self, b),
+            lambda n: io.BytesIO.write(self, mv.cast("B")[:n]),
+        )
+
+    def seek(self, *a):
+        self.sim_seeks += 1
+        return io.BytesIO.seek(self, *a)
+
+
+class SimStringIO(io.StringIO, _SinkMixin):
+    def __init__(self, initial: str = "", **kw):
+        io.StringIO.__init__(self, initial)
+        self._sim_init(**kw)
+
+    def write(self, s):
+        return self._sim_write(
+            s, len(s),
+            lambda: io.StringIO.write(self, s),
+            lambda n: io.StringIO.write(self, s[:n]),
+        )
+
+
+class FsizeLimit:
+    """'Disk full at byte k' for real files: RLIMIT_FSIZE with SIGXFSZ ignored makes the
+    k-th byte the last that fits; every later write fails with EFBIG.  This is the only
+    injected fault that also reaches C stdio / numpy ``tofile``."""
+
+    def __init__(self, limit: int):
+        self.limit = limit
+
+    def __enter__(self):
+        import resource
+        import signal
+
+        signal.signal(signal.SIGXFSZ, signal.SIG_IGN)
+        self._old = resource.getrlimit(resource.RLIMIT_FSIZE)
+        resource.setrlimit(resource.RLIMIT_FSIZE, (self.limit, self._old[1]))
+        return self
+
+    def __exit__(self, *exc):
+        import resource
+
+        resource.setrlimit(resource.RLIMIT_FSIZE, self._old)
+        return False
+
+
+# ---------------------------------------------------------------------------
+# Clock
+
+import datetime as _dt  # noqa: E402
+
+_RealDatetime = _dt.datetime
+
+
+class SimClock:
+    """Scripted clock: starts at a scenario-chosen instant and advances by the scripted
+    delta at each read (negative deltas = jumps backwards)."""
+
+    def __init__(self):
+        self.set({"start": "2024-01-01T00:00:00+00:00", "deltas": [1.0]})
+        self.ctx = None
+
+    def set(self, script: dict):
+        self.t = _RealDatetime.fromisoformat(script["start"])
+        if self.t.tzinfo is None:
+            self.t = self.t.replace(tzinfo=_dt.timezone.utc)
+        self.deltas = list(script.get("deltas") or [0.0])
+        self.reads = 0
+        self.t0 = self.t
+        self.tmin = self.tmax = self.t
+
+    def read(self) -> _RealDatetime:
+        now = self.t
+        d = self.deltas[self.reads % len(self.deltas)]
+        self.reads += 1
+        try:
+            self.t = self.t + _dt.timedelta(seconds=d)
+        except OverflowError:
+            pass
+        self.tmin = min(self.tmin, self.t)
+        self.tmax = max(self.tmax, self.t)
+        if self.ctx is not None:
+            self.ctx.log("clock", now.isoformat())
+        return now
+
+    def span_s(self) -> float:
+        return (self.tmax - self.tmin).total_seconds()
+
+
+CLOCK = SimClock()
+
+
+class _SimDatetimeMeta(type(_RealDatetime)):
+    def __instancecheck__(cls, inst):
+        return isinstance(inst, _RealDatetime)
+
+
+class SimDatetime(_RealDatetime, metaclass=_SimDatetimeMeta):
+    """Drop-in for the ``datetime`` name imported by a library module."""
+
+    @classmethod
+    def now(cls, tz=None):
+        t = CLOCK.read()
+        if tz is None:
+            return t.replace(tzinfo=None)
+        if tz is _dt.timezone.utc:
+            return t
+        return t.astimezone(tz)
+
+    @classmethod
+    def utcnow(cls):
+        return CLOCK.read().replace(tzinfo=None)
+
+
+def install_clock(*modules) -> None:
+    for m in modules:
+        if getattr(m, "datetime", None) is _RealDatetime:
+            m.datetime = SimDatetime
